@@ -260,7 +260,7 @@ def _jit_identity(ctx):
 def c14_kernel_accel(ctx, kernel, form, nsup):
     import darsia.utils.kernels as K
     c = 2
-    shape = {"pixel": (c,), "pixels": (2, c), "image": (2, 2, c)}[form]
+    shape = {"pixel": (c,), "pixels": (2, c), "image": (2, 3, c)}[form]            # rows != cols: a transposed result is not the result
     x = ctx.array("x", shape, sample=(0.0, 1.0))
     sup = ctx.array("s", (nsup, c), sample=(0.0, 1.0))
     w = ctx.array("w", (nsup,), sample=(-1.0, 1.0))
